@@ -4,6 +4,7 @@ package main
 // (InitChain / BeginBlock / DeliverTx / EndBlock / Commit / Query) with real signatures and real stores.
 
 import (
+	txtypes "github.com/cosmos/cosmos-sdk/types/tx"
 	"bytes"
 	"encoding/json"
 	"fmt"
@@ -192,7 +193,11 @@ func (c *Chain) ExportImport() (result string, fs []eiFinding) {
 		for _, b := range app.ModuleBasics {
 			if hg, ok := b.(module.HasGenesisBasics); ok && b.Name() == m {
 				if err := hg.ValidateGenesis(enc.Codec, enc.TxConfig, gs[m]); err != nil {
-					fs = append(fs, eiFinding{"C08-export-invalid" + sfx, fmt.Sprintf("the exported %s genesis fails its own validation: %v", m, err)})
+					esfx := ""
+					if sfx != "" && (strings.Contains(err.Error(), "description") || strings.Contains(err.Error(), "moniker")) {
+						esfx = sfx // K3: a coerced text grew beyond its limit; any other validation failure is not explained by it
+					}
+					fs = append(fs, eiFinding{"C08-export-invalid" + esfx, fmt.Sprintf("the exported %s genesis fails its own validation: %v", m, err)})
 					return "X invalid " + m, fs
 				}
 			}
@@ -296,6 +301,10 @@ func (c *Chain) acctByAddr(a sdk.AccAddress) *Acct {
 
 // BuildTx signs msgs with the given accounts (in this order), using each account's current number/sequence.
 func (c *Chain) BuildTx(msgs []sdk.Msg, signers []sdk.AccAddress, fee sdk.Coins, mode signing.SignMode) (bz []byte, err error) {
+	return c.buildTxMemo(msgs, signers, fee, mode, "")
+}
+
+func (c *Chain) buildTxMemo(msgs []sdk.Msg, signers []sdk.AccAddress, fee sdk.Coins, mode signing.SignMode, memo string) (bz []byte, err error) {
 	defer func() {
 		if r := recover(); r != nil {
 			err = fmt.Errorf("panic while building tx: %v", r)
@@ -308,6 +317,7 @@ func (c *Chain) BuildTx(msgs []sdk.Msg, signers []sdk.AccAddress, fee sdk.Coins,
 	}
 	b.SetGasLimit(50_000_000)
 	b.SetFeeAmount(fee)
+	b.SetMemo(memo)
 	ctx := c.Ctx()
 	type si struct {
 		acct *Acct
@@ -348,6 +358,39 @@ func (c *Chain) BuildTx(msgs []sdk.Msg, signers []sdk.AccAddress, fee sdk.Coins,
 		return nil, err
 	}
 	return txCfg.TxEncoder()(b.GetTx())
+}
+
+// modifySignatures replaces the signatures of an encoded transaction by signatures that were NOT made over it
+func (c *Chain) modifySignatures(bz []byte, cur *TxInfo, mode signing.SignMode) ([]byte, error) {
+	var raw txtypes.TxRaw
+	if err := raw.Unmarshal(bz); err != nil {
+		return nil, err
+	}
+	switch cur.SigMod {
+	case "otherbody":
+		var body txtypes.TxBody
+		if err := body.Unmarshal(raw.BodyBytes); err != nil {
+			return nil, err
+		}
+		// sign the same messages with another memo, keep those signatures, put them on the original body
+		other, err := c.buildTxMemo(cur.Top, cur.Signers, cur.Fee, mode, body.Memo+"#other")
+		if err != nil {
+			return nil, err
+		}
+		var raw2 txtypes.TxRaw
+		if err := raw2.Unmarshal(other); err != nil {
+			return nil, err
+		}
+		raw.Signatures = raw2.Signatures
+	default: // corrupt
+		for i := range raw.Signatures {
+			if n := len(raw.Signatures[i]); n > 0 {
+				raw.Signatures[i] = append([]byte{}, raw.Signatures[i]...)
+				raw.Signatures[i][n-1] ^= 0x01
+			}
+		}
+	}
+	return raw.Marshal()
 }
 
 func clientSign(txCfg client.TxConfig, mode signing.SignMode, sd authsigning.SignerData, b client.TxBuilder, priv cryptotypes.PrivKey, seq uint64) (signing.SignatureV2, error) {
